@@ -38,10 +38,16 @@ def main():
             except Exception as e:
                 rep.notes.append("thorough extras failed: %r" % (e,))
         return rep.finish(seed, write=not a.no_evidence)
-    except Exception:
+    except Exception as e:
+        # fail closed: an analysis that cannot digest the tree gives no assurance. On the pinned tree this never happens
+        # (vp check runs every quick command); on an edited tree it is reported like any unrecognised idiom.
         traceback.print_exc()
-        print("CHECK-ERROR property=%s (internal error; no verdict)" % prop)
-        return 3
+        from infra import Report
+        rep = Report(prop, a.tier)
+        rep.rule("X0", "the analysis completes on the tree", 0)
+        rep.explanation = "the checker could not analyse the tree"
+        rep.violation("%s:analysis-failed" % prop, "X0", "UNRECOGNISED shape: the analysis stopped with %s: %s — no verdict can be given for this tree" % (type(e).__name__, str(e)[:200]), where="(see traceback above)")
+        return rep.finish(seed, write=not a.no_evidence)
 
 
 if __name__ == "__main__":
